@@ -127,7 +127,14 @@ class Ctx:
         return fd
 
     def ob(self, oid, rule, where, text):
-        o = Obligation("%s/%s" % (self.prop, oid), rule, where, text)
+        full = "%s/%s" % (self.prop, oid)
+        if not hasattr(self, "_ids"):
+            self._ids = {}
+        n = self._ids.get(full, 0) + 1
+        self._ids[full] = n
+        if n > 1:
+            full = "%s~%d" % (full, n)   # the same rule group reached twice inside one property
+        o = Obligation(full, rule, where, text)
         b = self.prog.bodies.get(where)
         if b is not None:
             o.loc = b.file_line()
